@@ -194,7 +194,7 @@ func (r mpReader) name() string { return "UDPPeer" }
 
 func TestC12_DatagramBoundaries(t *testing.T) {
 	rec := evid.For("C12")
-	rec.SetRule("rapid: (A) PacketConn and multicast.UDPPeer on 127.0.0.1: bursts of 1..80 datagrams (consumed one read at a time from top level, or by a chain of reads re-armed from each completion with a fresh buffer, which crosses the dispatch limit) of 1..1372 bytes (and up to 60000) from 1..3 raw senders, reads with buffers smaller/equal/larger than the datagram, issued before (deferred) or after (inline) arrival; writes to raw receivers; oracle: every datagram completes exactly one read with n=min(len,buf), identical bytes, the sender's ip:port (getsockname of the raw sender), per-sender order; every write is received exactly once with the caller's bytes; (B) UDPPeer bind forms {'', ':0', ':p', ifaddr:p, 127.0.0.1:p, 224.0.x.y:p}: LocalAddr()==getsockname; (C) membership histories on eth0: Join/JoinOn/JoinSource/Leave/LeaveSource/BlockSource/UnblockSource/SetLoop/SetTTL/SetOutboundIPv4/SetAsyncReadBuffer interleaved with multicast datagrams to joined and non-joined groups from a raw sender (source = interface address) while harness witness sockets keep every group joined on the host; a membership model (any-source with blocked set / include set) predicts delivered or not; non-delivery is decided by a unicast fence datagram that must be the next one read; getters TTL/Loop/Outbound/LocalAddr compared with getsockopt/getsockname after every call; non-trivial = >=2 membership changes with traffic after each, or a truncating read, or a buffer swap; distinct = hash of the history")
+	rec.SetRule("rapid: (A) PacketConn and multicast.UDPPeer on 127.0.0.1: bursts of 1..80 datagrams (consumed one read at a time from top level, or by a chain of reads re-armed from each completion with a fresh buffer, which crosses the dispatch limit) of 1..1372 bytes (and up to 60000) from 1..3 raw senders, reads with buffers smaller/equal/larger than the datagram, issued before (deferred) or after (inline) arrival; writes to raw receivers, singly or as a chain of 34..80 writes re-issued from their completions with varying destinations; oracle: every datagram completes exactly one read with n=min(len,buf), identical bytes, the sender's ip:port (getsockname of the raw sender), per-sender order; every write is received exactly once with the caller's bytes; (B) UDPPeer bind forms {'', ':0', ':p', ifaddr:p, 127.0.0.1:p, 224.0.x.y:p}: LocalAddr()==getsockname; (C) membership histories on eth0: Join/JoinOn/JoinSource/Leave/LeaveSource/BlockSource/UnblockSource/SetLoop/SetTTL/SetOutboundIPv4/SetAsyncReadBuffer interleaved with multicast datagrams to joined and non-joined groups from a raw sender (source = interface address) while harness witness sockets keep every group joined on the host; a membership model (any-source with blocked set / include set) predicts delivered or not; non-delivery is decided by a unicast fence datagram that must be the next one read; getters TTL/Loop/Outbound/LocalAddr compared with getsockopt/getsockname after every call; non-trivial = >=2 membership changes with traffic after each, or a truncating read, or a buffer swap; distinct = hash of the history")
 	rec.Assume("loopback delivery keeps per-sender order; all local multicast senders have the interface address as source, a second source is an address that never sends (10.9.9.9); TTL 1, nothing leaves the sandbox")
 	vt.Check(t, 300, func(rt *rapid.T) {
 		ioc, err := sonic.NewIO()
@@ -413,6 +413,61 @@ func TestC12_DatagramBoundaries(t *testing.T) {
 					}
 				}
 				trace = append(trace, fmt.Sprintf("write(%d)", len(p)))
+			}
+		}
+		// a chain of writes, each issued from the completion of the previous one, to varying destinations and from fresh
+		// buffers: after 32 nested completions the next write is handed to the poller and must still go where it was addressed
+		if problem == "" && rapid.IntRange(0, 2).Draw(rt, "writeChain") == 0 {
+			L := rapid.IntRange(34, 80).Draw(rt, "chainLen")
+			dests := make([]int, L)
+			sizes := make([]int, L)
+			for i := range dests {
+				dests[i] = rapid.IntRange(0, ns-1).Draw(rt, "cdest")
+				sizes[i] = rapid.IntRange(1, 40).Draw(rt, "csize")
+			}
+			want := make([][][]byte, ns)
+			done, werrs := 0, 0
+			var next func(i int)
+			next = func(i int) {
+				if i >= L {
+					return
+				}
+				tag++
+				pkt := payload(tag, sizes[i])
+				want[dests[i]] = append(want[dests[i]], pkt)
+				rd.asyncWrite(pkt, senders[dests[i]], func(err error) {
+					done++
+					if err != nil {
+						werrs++
+					}
+					next(i + 1)
+				})
+			}
+			next(0)
+			for i := 0; i < 50 && done < L; i++ {
+				sysx.WaitWritable(rd.rawFd(), 50)
+				_, _ = ioc.PollOne()
+			}
+			trace = append(trace, fmt.Sprintf("writeChain(%d)", L))
+			if done != L || werrs != 0 {
+				problem = fmt.Sprintf("chain of %d writes: %d completions, %d errors", L, done, werrs)
+			}
+			for d := 0; d < ns && problem == ""; d++ {
+				for k, pkt := range want[d] {
+					buf := make([]byte, 2048)
+					if !sysx.WaitReadable(senders[d].fd, 300) {
+						problem = fmt.Sprintf("write #%d of the chain addressed to receiver %d (%d bytes) never arrived there", k, d, len(pkt))
+						break
+					}
+					n, _, err := syscall.Recvfrom(senders[d].fd, buf, 0)
+					if err != nil || !bytes.Equal(buf[:n], pkt) {
+						problem = fmt.Sprintf("receiver %d got %x.. as its datagram #%d of the chain, the caller wrote %x.. to it", d, head(buf[:max(n, 0)]), k, head(pkt))
+						break
+					}
+				}
+				if problem == "" && sysx.WaitReadable(senders[d].fd, 0) {
+					problem = fmt.Sprintf("receiver %d got more datagrams than were addressed to it", d)
+				}
 			}
 		}
 		if n := socketsOnPort(port); n != 1 && (problem != "" || sysx.WaitReadable(rd.rawFd(), 0)) {
